@@ -12,6 +12,7 @@ import (
 	"sort"
 	"strconv"
 	"strings"
+	"sync"
 	"time"
 
 	"github.com/mailru/easyjson/jlexer"
@@ -143,14 +144,26 @@ func NewRoundRobinDecoder(dec ...Decoder) Decoder {
 
 // NewDecoder returns a new gob Decoder for the given io.Reader.
 func NewDecoder(rd io.Reader) Decoder {
-	src := &gobSource{r: bufio.NewReader(rd)}
+	// Like gob itself: buffer the source unless it hands out single bytes,
+	// in which case exactly the bytes of each value are consumed.
+	br, ok := rd.(byteReader)
+	if !ok {
+		br = bufio.NewReader(rd)
+	}
+	src := &gobSource{r: br}
 	dec := gob.NewDecoder(src)
-	var again bytes.Buffer
-	shadow, primed := gob.NewDecoder(&again), false
+	var (
+		mu     sync.Mutex // a gob.Decoder is safe for concurrent use: so is this one
+		again  bytes.Buffer
+		shadow = gob.NewDecoder(&again)
+		primed bool
+	)
 	return func(r *Result) error {
 		if r == nil {
 			return dec.Decode(r)
 		}
+		mu.Lock()
+		defer mu.Unlock()
 		// gob sizes a nil map by the element count it finds in the stream
 		// before it has read a single element, so a corrupted count of
 		// billions of headers would allocate that much memory. Entries
@@ -166,7 +179,8 @@ func NewDecoder(rd io.Reader) Decoder {
 		// back without headers is therefore decoded once more, by a second
 		// decoder and into a nil map, which is safe now that the count is
 		// known to be zero. That decoder needs the type definitions too,
-		// which precede the first value.
+		// which precede the first value of a stream of results: the first
+		// value goes to it in any case, into a struct without a map.
 		unknown := fresh && len(r.Headers) == 0
 		if unknown {
 			r.Headers = nil
@@ -174,20 +188,37 @@ func NewDecoder(rd io.Reader) Decoder {
 		if err == nil && (unknown || !primed) {
 			primed = true
 			again.Write(src.read)
-			var v struct{ Headers http.Header }
-			if shadow.Decode(&v) == nil && unknown {
-				r.Headers = v.Headers
+			if unknown {
+				var v struct{ Headers http.Header }
+				if shadow.Decode(&v) == nil {
+					r.Headers = v.Headers
+				}
+			} else {
+				_ = shadow.Decode(&struct{ Seq uint64 }{})
 			}
+			again.Reset()
+		}
+		// Keep no more than a modest buffer from one value to the next.
+		if cap(src.read) > 1<<20 {
+			src.read = nil
+		}
+		if again.Cap() > 1<<20 {
+			again = bytes.Buffer{}
 		}
 		return err
 	}
+}
+
+type byteReader interface {
+	io.Reader
+	io.ByteReader
 }
 
 // gobSource hands a gob decoder exactly the bytes it asks for (it is an
 // io.ByteReader, so the decoder adds no read-ahead buffer of its own) and
 // keeps those read since it was last reset: the messages of one value.
 type gobSource struct {
-	r    *bufio.Reader
+	r    byteReader
 	read []byte
 }
 
